@@ -20,7 +20,7 @@ RULE = ("random DAGs (<= 7 providers, depth <= 4, fan-out <= 3, shared sub-depen
         "fingerprint = canonical DAG + overrides + failure + converter; trivial = graphs without any edge")
 ASSUMPTIONS = ["in-memory broker; virtual time; sync providers run through an inline executor (the asyncify wrapper is kept)"]
 EVAL_COUNTER = "invocations_judged"
-REQUIRED = ["invocations_judged", "providers_with_defaulted_dependencies", "graphs_with_shared_subdeps", "overrides_applied", "provider_failures", "declaration_rejections", "msg_leaves", "concurrent_twins", "fresh_executions", "same_function_depends_runs", "shadowing_payload_jobs", "exception_valued_providers"]
+REQUIRED = ["invocations_judged", "process_pool_provider_runs", "providers_with_defaulted_dependencies", "graphs_with_shared_subdeps", "overrides_applied", "provider_failures", "declaration_rejections", "msg_leaves", "concurrent_twins", "fresh_executions", "same_function_depends_runs", "shadowing_payload_jobs", "exception_valued_providers"]
 CASE_TIMEOUT = 120
 
 
@@ -35,6 +35,8 @@ def gen_cases(tier, seed):
         cases.append({"type": "twice", "seed": rnd.randrange(10**6), "conv": ["basic", "pydantic"][i % 2], "async": i % 3 == 0, "which": i % 3, "nested": i % 2 == 1})
     for i in range({"quick": 8, "thorough": 48}[tier]):
         cases.append({"type": "fresh", "seed": rnd.randrange(10**6), "keep": i % 2 == 0, "via_retry": (i // 2) % 2 == 0, "fails": 1 + i % 3, "recurring": i % 4 == 3})
+    # real processes, real time: a provider declared with run_in_process=True, then overridden by an ordinary closure
+    cases.append({"type": "inproc", "seed": 1})
     return cases
 
 
@@ -52,6 +54,55 @@ def gen_graph(rnd):
         nodes.append({"name": f"d{i}", "subs": subs, "async": rnd.random() < 0.5, "msg": rnd.random() < 0.25, "plain": rnd.choice([None, None, 7]),
                       "dep_defaults": rnd.random() < 0.3})
     return nodes
+
+
+def inproc_case(case, out, stats, fps):
+    """Stock event loop, real ProcessPoolExecutor: the declared provider runs in another process; an override given as a
+    closure (what tests and the documentation's example do) replaces it from then on and its value reaches the actor."""
+    import os
+
+    from repid import Connection, Job, Router, Worker
+    from repid.connections import InMemoryMessageBroker
+    from repid.converter import BasicConverter
+    from repid.router import RouterDefaults
+    from rv.actors import register_inproc_actor
+    from rv.sim.loop import wall_passthrough
+
+    wall_passthrough()
+    received = []
+
+    async def main():
+        conn = Connection(InMemoryMessageBroker())
+        await conn.connect()
+        r = Router(defaults=RouterDefaults(converter=BasicConverter))
+        dep = register_inproc_actor(r, "heavy", received)
+        await conn.message_broker.queue_declare("default")
+        await Job("heavy", id_="h1", args={"tag": "declared"}, store_result=False, _connection=conn).enqueue()
+        await asyncio.wait_for(Worker(routers=[r], messages_limit=1, handle_signals=[], _connection=conn).run(), 60)
+        secret = {"n": 0}
+
+        def replacement():
+            secret["n"] += 1  # state of THIS process: a closure cannot travel to another one
+            return ("overridden", secret["n"])
+
+        dep.override(replacement)
+        for i in (1, 2):
+            await Job("heavy", id_=f"o{i}", args={"tag": f"override{i}"}, store_result=False, _connection=conn).enqueue()
+        await asyncio.wait_for(Worker(routers=[r], messages_limit=2, tasks_limit=1, handle_signals=[], _connection=conn).run(), 60)
+        await conn.disconnect()
+
+    asyncio.run(main())
+    stats["invocations_judged"] += 3
+    stats["process_pool_provider_runs"] += 1
+    fps.add("inproc/declared-then-overridden")
+    got = dict((t, v) for t, v in received)
+    d = got.get("declared")
+    if not (isinstance(d, (tuple, list)) and d[0] == "declared" and d[1] != os.getpid()):
+        out.append(V("value_mismatch", "run_in_process/declared", f"the provider declared with run_in_process=True delivered {d!r} (this process is {os.getpid()})"))
+    want = {"override1": ("overridden", 1), "override2": ("overridden", 2)}
+    for t, wv in want.items():
+        if normalize(got.get(t)) != wv:
+            out.append(V("override_ignored", "run_in_process/closure-override", f"after override(closure) the actor received {got.get(t)!r} for job {t}, expected {wv} (all executions: {received})"))
 
 
 def expected_token(nodes, i, msgid, overrides):
@@ -390,6 +441,11 @@ def run_case(case):
     out, fps, samples = [], set(), []
     if case["type"] == "declarations":
         declarations(out, stats, fps)
+    elif case["type"] == "inproc":
+        try:
+            inproc_case(case, out, stats, fps)
+        except Exception as exc:  # noqa: BLE001
+            out.append(V("harness_or_api_error", "inproc", f"{type(exc).__name__}: {exc}"))
     elif case["type"] == "shadow":
         res = vl.run(lambda loop: shadow_scenario(loop, case, out, stats, fps), max_steps=4_000_000, seed=case["seed"])
         if res.exc is not None:
